@@ -570,13 +570,13 @@ def c20_live(B, fails, samples):
         s = socket.socket(); s.bind(("127.0.0.1", 0)); p = s.getsockname()[1]; s.close(); return p
     rpc, grpc, p2p, pprof = free_port(), free_port(), free_port(), free_port()
     node = "--node tcp://127.0.0.1:%d" % rpc
-    def cli(args, what=None, must=(), expect_fail=False):
+    def cli(args, what=None, must=(), expect_fail=False, must_not=()):
         nonlocal ran
         ran += 1
         rc, out = sh("timeout 60 %s %s --home %s" % (B, args, home))
-        bad = (rc != 0) != expect_fail or any(m not in out for m in must)
+        bad = (rc != 0) != expect_fail or any(m not in out for m in must) or any(m in out for m in must_not)
         if bad:
-            fails.append(dict(cmd="fundraisingd " + args, rc=rc, output=out[-900:], expected_to_contain=list(must)))
+            fails.append(dict(cmd="fundraisingd " + args, rc=rc, output=out[-900:], expected_to_contain=list(must), expected_not_to_contain=list(must_not)))
         elif what:
             samples.append(dict(cmd=args.replace(node, "").strip(), shows=what))
         return rc, out
@@ -584,13 +584,17 @@ def c20_live(B, fails, samples):
     cli("keys add alice --keyring-backend test")
     rc, out = cli("keys show alice -a --keyring-backend test")
     alice = (ADDR_RE.findall(out) or ["?"])[-1]
+    cli("keys add bob --keyring-backend test")
+    rc, out = cli("keys show bob -a --keyring-backend test")
+    bob = (ADDR_RE.findall(out) or ["?"])[-1]
     # the fixture genesis of the module
     hdir = os.path.join(VERIF, "harness")
     fx = os.path.join(BUILD, "fixture.json")
-    rcf, outf = sh("timeout 900 go build -o %s ./cmd/genfixture && %s %s %s %s" % (os.path.join(BUILD, "genfixture"), os.path.join(BUILD, "genfixture"), REPO, fx, alice), cwd=hdir, env=GOENV)
+    rcf, outf = sh("timeout 900 go build -o %s ./cmd/genfixture && %s %s %s %s" % (os.path.join(BUILD, "genfixture"), os.path.join(BUILD, "genfixture"), REPO, fx, alice + " " + bob), cwd=hdir, env=GOENV)
     if rcf != 0:
         fails.append(dict(cmd="harness/cmd/genfixture", rc=rcf, output=outf[-900:])); return ran
     cli("genesis add-genesis-account %s 1000000000000stake,1000000000denoma,1000000000denomb" % alice)
+    cli("genesis add-genesis-account %s 1000000stake,1000denomb" % bob)
     for l in outf.strip().splitlines():
         a, c = l.split()
         cli("genesis add-genesis-account %s %s" % (a, c))
@@ -634,6 +638,10 @@ def c20_live(B, fails, samples):
         cli("query fundraising list-auction " + node, "all auctions", must=["FixedPriceAuction", "BatchAuction"])
         cli("query fundraising get-bid 2 1 " + node, "a matched bid", must=["is_matched: true", 'amount: "80"', "denomb", alice])
         cli("query fundraising list-bid --auction-id 1 " + node, "the bids of one auction", must=['amount: "40"', "BID_TYPE_BATCH_WORTH"])
+        cli("query fundraising list-bid --auction-id 1 --bidder %s --is-matched false %s" % (alice, node), "the unmatched bids of one bidder: both filters typed, both applied",
+            must=['amount: "40"', alice], must_not=[bob, 'amount: "30"'])
+        cli("query fundraising list-bid --auction-id 1 --bidder %s %s" % (bob, node), "the bids of the other bidder", must=['amount: "30"', bob], must_not=[alice])
+        cli("query fundraising list-bid --auction-id 1 --is-matched true " + node, "no matched bid in an open batch auction", must_not=['amount: "40"', 'amount: "30"'])
         cli("query fundraising list-bid --auction-id 2 " + node, "the bids of an auction whose bid is matched, no filter typed", must=['amount: "80"', "is_matched: true"])
         cli("query fundraising list-auction --status AUCTION_STATUS_VESTING " + node, "auctions filtered by status", must=["AUCTION_STATUS_VESTING"])
         cli("query fundraising get-allowed-bidder 0 %s %s" % (alice, node), "an allow-list entry", must=['max_bid_amount: "500"', alice])
